@@ -102,12 +102,19 @@ Start ==
 
 (* ---- the channel attendant -------------------------------------------------- *)
 StateOf(op) == CASE op = "CC" -> "ContractClosed" [] op = "WFR" -> "WaitingFullResolution" [] OTHER -> "FullyResolved"
+\* the attendant's queue as it sees it: an idle attendant in StateWaitingFullResolution that receives a
+\* resolutionSignal re-examines the contracts bucket and moves on iff it is empty
+Signalled(c) == \E k \in Kinds : res[c][k].pc = "signal"
+EffQ(c) == IF mq[c] = <<>> /\ lstate[c] = "WaitingFullResolution" /\ Signalled(c) /\ UnresEmpty(c)
+           THEN <<"FR", "Notify">> ELSE mq[c]
 \* CommitState; stateStep(StateWaitingFullResolution) goes on to StateFullyResolved iff the contracts bucket is empty
 ACommit(c) ==
-  /\ Running(c) /\ mq[c] # <<>> /\ Head(mq[c]) \in {"CC", "WFR", "FR"}
-  /\ lstate' = [lstate EXCEPT ![c] = StateOf(Head(mq[c]))]
-  /\ mq' = [mq EXCEPT ![c] = IF Head(@) = "WFR" /\ UnresEmpty(c) THEN <<"FR", "Notify">> ELSE Tail(@)]
-  /\ UNCHANGED <<chans, pend, hasRes, unres, reports, worldVars, alive, arb, res, rcpc, upstream, ncrash>>
+  /\ Running(c) /\ EffQ(c) # <<>> /\ Head(EffQ(c)) \in {"CC", "WFR", "FR"}
+  /\ lstate' = [lstate EXCEPT ![c] = StateOf(Head(EffQ(c)))]
+  /\ mq' = [mq EXCEPT ![c] = IF Head(EffQ(c)) = "WFR" /\ UnresEmpty(c) THEN <<"FR", "Notify">> ELSE Tail(EffQ(c))]
+  /\ res' = [res EXCEPT ![c] = [k \in Kinds |-> IF @[k].pc = "signal" /\ mq[c] = <<>> THEN [@[k] EXCEPT !.pc = "done"]
+                                                                                      ELSE @[k]]]
+  /\ UNCHANGED <<chans, pend, hasRes, unres, reports, worldVars, alive, arb, rcpc, upstream, ncrash>>
 
 \* StateContractClosed: InsertUnresolvedContracts (fresh resolvers over whatever the bucket holds) + resolveContracts
 AIns(c) ==
@@ -155,11 +162,6 @@ RResolve(c, k) ==
   /\ unres' = [unres EXCEPT ![c][k] = NoRec]
   /\ res' = [res EXCEPT ![c][k].pc = "signal"]
   /\ UNCHANGED <<chans, pend, lstate, hasRes, reports, worldVars, alive, arb, mq, rcpc, upstream, ncrash>>
-RSignal(c, k) ==
-  /\ Running(c) /\ res[c][k].pc = "signal" /\ mq[c] = <<>> /\ lstate[c] = "WaitingFullResolution"
-  /\ res' = [res EXCEPT ![c][k].pc = "done"]
-  /\ mq' = [mq EXCEPT ![c] = IF UnresEmpty(c) THEN <<"FR", "Notify">> ELSE <<>>]
-  /\ UNCHANGED <<chans, durVars, worldVars, alive, arb, rcpc, upstream, ncrash>>
 
 (* ---- ChainArbitrator.ResolveContract ------------------------------------------------- *)
 NotifyReady(c) == Running(c) /\ mq[c] = <<"Notify">>
@@ -224,7 +226,7 @@ Next ==
   \/ Start \/ Crash \/ Finished
   \/ \E c \in chans :
        \/ ACommit(c) \/ AIns(c) \/ RAnchor(c, FALSE) \/ RUp(c) \/ MarkClosed(c, c) \/ Wipe(c)
-       \/ \E k \in Kinds : RLaunch(c, k, TRUE) \/ RCheckpoint(c, k, c) \/ RResolve(c, k) \/ RSignal(c, k)
+       \/ \E k \in Kinds : RLaunch(c, k, TRUE) \/ RCheckpoint(c, k, c) \/ RResolve(c, k)
                            \/ SweepDone(c, k)
 Spec == Init /\ [][Next]_vars
 
